@@ -16,6 +16,12 @@ variable {σ : Type} [DecidableEq σ] (ipv : σ → Option Nat) (skip : σ → B
 /-- the volatile-header list and the private prefix the source uses now are the ones the judge uses -/
 theorem gen_cfg_pinned : genCfg = specCfg := by decide
 
+/-- the notification logic the model transcribes by hand (`see_search`, `see_advertisement`, `unsee_advertisement`,
+    `same_headers_differ`, `location_changed`, `combined_headers`, the four `_on_*` with their two independent callback
+    branches) still reads as it did when it was transcribed: e.g. `is_new_device and is_new_service`, a reversed overlay or
+    `ssdp:update` treated like alive now also break this pin, not only the judged runs -/
+theorem gen_sources_pinned : Gen.C03Tracker.sources = transcribedSources := rfl
+
 /-- **c04_step** — every step of the model, from every state satisfying the tracker invariant, satisfies the
     judge's step relation on the model's own observations: at most one notification per message (both callback
     flavours identical), for the sender and the message's type; `search_changed` / `advertisement_alive` exactly
@@ -67,10 +73,114 @@ theorem c04_step (le : σ → σ → Bool) {s : Tracker σ} (hi : Inv s) (e : Ev
         | update => simp [seeAdv_notif_none ipv skip s m (Or.inr hk) hs]
         | byebye => simp [unsee_notif_none s m hk hb]
 
+/-! ### the notification decisions stated directly on the model (not through the judge) -/
+
+/-- **search_changed_iff** — a valid search response is always notified, for the sender and the message's type, as
+    `search_changed` or `search_alive`; and it is `search_changed` EXACTLY when the device is new (not held by the tracker
+    after its purge at the message's timestamp), or the type is new for the device, or the location is a changed one, or
+    a non-volatile header differs from the stored search response of that type. -/
+theorem search_changed_iff {s : Tracker σ} (hi : Inv s) (m : Msg σ) (hw : m.wf = true) (hk : m.kind = .search)
+    (u loc ty : σ) (hs : m.sighting? = some (u, loc)) (hty : m.ty = some ty) :
+    ∃ src d', (step ipv skip s (.msg m)).2 = some ⟨u, ty, src, d'⟩ ∧ (src = .searchChanged ∨ src = .searchAlive) ∧
+      (src = .searchChanged ↔
+        Changed ipv skip m loc ty (fun d => get? d.search ty) (get? (purge s m.ts).devices u)) := by
+  obtain ⟨hu, hl, hlo, hh⟩ := sighting_fields' m u loc ty hw hs hty
+  have hv : m.validSearch = true := by simp [Msg.validSearch, hh, hty, hl, hlo]
+  have hiff := changed_bool_iff ipv skip s hi m u loc ty true
+  simp only [if_true] at hiff
+  simp only [step, hk]
+  rw [seeSearch_valid ipv skip s m u loc ty hv hu hh hl hty]
+  exact ⟨_, _, rfl, (src_ite _).1, (src_ite _).2.trans hiff⟩
+
+/-- **alive_notified_iff** — a valid `ssdp:alive` is notified (as `advertisement_alive`, for the sender and the message's
+    type) EXACTLY under the same conditions relative to the stored advertisement of that type; otherwise there is no
+    notification. -/
+theorem alive_notified_iff {s : Tracker σ} (hi : Inv s) (m : Msg σ) (hw : m.wf = true) (hk : m.kind = .alive)
+    (u loc ty : σ) (hs : m.sighting? = some (u, loc)) (hty : m.ty = some ty) :
+    ((∃ d', (step ipv skip s (.msg m)).2 = some ⟨u, ty, .advAlive, d'⟩) ∨ (step ipv skip s (.msg m)).2 = none) ∧
+    ((step ipv skip s (.msg m)).2.isSome = true ↔
+      Changed ipv skip m loc ty (fun d => get? d.adv ty) (get? (purge s m.ts).devices u)) := by
+  obtain ⟨hu, hl, hlo, hh⟩ := sighting_fields' m u loc ty hw hs hty
+  have hn : m.ntsOk = true := by simp [Msg.wf, hk] at hw; exact hw.1.2
+  have hv : m.validAdv = true := by simp [Msg.validAdv, hh, hty, hl, hlo, hn]
+  have hiff := changed_bool_iff ipv skip s hi m u loc ty false
+  simp only [Bool.false_eq_true, if_false] at hiff
+  simp only [step, hk]
+  rw [seeAdv_valid ipv skip s m u loc ty hv hu hh hl hty]
+  simp only [hk, show (Kind.alive == Kind.update) = false by decide, Bool.false_or, Bool.false_eq_true, if_false]
+  refine ⟨?_, (notif_ite (σ := σ) _ _).2.trans hiff⟩
+  rcases (notif_ite (σ := σ) _ _).1 with h | h
+  · exact Or.inl ⟨_, h⟩
+  · exact Or.inr h
+
+/-- **update_notified** — a valid `ssdp:update` is always notified, as `advertisement_update`, for the sender and the type. -/
+theorem update_notified (s : Tracker σ) (m : Msg σ) (hw : m.wf = true) (hk : m.kind = .update)
+    (u loc ty : σ) (hs : m.sighting? = some (u, loc)) (hty : m.ty = some ty) :
+    ∃ d', (step ipv skip s (.msg m)).2 = some ⟨u, ty, .advUpdate, d'⟩ := by
+  obtain ⟨hu, hl, hlo, hh⟩ := sighting_fields' m u loc ty hw hs hty
+  have hn : m.ntsOk = true := by simp [Msg.wf, hk] at hw; exact hw.1.2
+  have hv : m.validAdv = true := by simp [Msg.validAdv, hh, hty, hl, hlo, hn]
+  simp only [step, hk]
+  rw [seeAdv_valid ipv skip s m u loc ty hv hu hh hl hty]
+  simp [hk]
+
+/-- **byebye_notified_iff** — a byebye naming `u` is notified (as `advertisement_byebye`, for `u` and the message's type)
+    EXACTLY when `u` is in the device map; **invalid_never_notified** — a message that is neither a valid sighting nor a
+    byebye naming a device is never notified. -/
+theorem byebye_notified_iff (s : Tracker σ) (m : Msg σ) (hw : m.wf = true) (u ty : σ)
+    (hb : m.byebye? = some u) (hty : m.ty = some ty) :
+    ((∃ d', (step ipv skip s (.msg m)).2 = some ⟨u, ty, .advByebye, d'⟩) ∨ (step ipv skip s (.msg m)).2 = none) ∧
+    ((step ipv skip s (.msg m)).2.isSome = true ↔ (get? s.devices u).isSome = true) := by
+  have hk : m.kind = .byebye := by
+    unfold Msg.byebye? at hb; split at hb
+    · assumption
+    · cases hb
+  have hu : m.udn = some u := by
+    simp only [Msg.byebye?, hk, if_true, hty] at hb
+    cases hu : m.udn <;> simp [hu] at hb
+    rw [hb]
+  have hh : m.udnHdr = some u := by simp [Msg.wf, hu] at hw; exact hw.1.1
+  have hn : m.ntsOk = true := by simp [Msg.wf, hk] at hw; exact hw.1.2
+  have hv : m.validByebye = true := by simp [Msg.validByebye, hh, hty, hn]
+  simp only [step, hk]
+  cases hg : get? s.devices u with
+  | none => simp [unsee, hv, hu, hty, hg]
+  | some d => simp [unsee, hv, hu, hty, hg]
+
+theorem invalid_never_notified (s : Tracker σ) (m : Msg σ) (hs : m.sighting? = none) (hb : m.byebye? = none) :
+    (step ipv skip s (.msg m)).2 = none := by
+  simp only [step]
+  cases hk : m.kind with
+  | search => exact seeSearch_notif_none ipv skip s m hk hs
+  | alive => exact seeAdv_notif_none ipv skip s m (Or.inl hk) hs
+  | update => exact seeAdv_notif_none ipv skip s m (Or.inr hk) hs
+  | byebye => exact unsee_notif_none s m hk hb
+
 /-- the trace the judge reads, produced by the model -/
 def traceOf (le : σ → σ → Bool) : Tracker σ → List (Ev σ) → List (Ev σ × Snap σ × Obs σ)
   | _, [] => []
   | s, e :: r => (e, snapOf le s, modelObs ipv skip src mode s e) :: traceOf le (step ipv skip s e).1 r
+
+/-- the slack of clause 5 ("a location in an already-known address family is new"), machine-checked: the location set
+    that counts is the one the tracker still holds after its purge at the message's timestamp (`search_changed_iff`), and
+    the `elif` of `purge_devices` drops a device's lapsed locations only if that device lowers the running minimum — so
+    an unrelated, live device listed first changes the answer.  Device 1: IPv4 location 50 valid to 5, IPv6 location
+    150 valid to 100; at t = 10 a search response of device 1 from the new IPv4 location 60.  Alone, the lapsed
+    location 50 is dropped and the message is `search_alive`; behind device 2 it survives and the same message is
+    `search_changed`.  The judge, whose text does not say whether a lapsed location is still "known", accepts both. -/
+example :
+    let ipv : Nat → Option Nat := fun l => if l < 100 then some 4 else some 6
+    let skip : Nat → Bool := fun k => decide (k < 10)
+    let le : Nat → Nat → Bool := fun a b => decide (a ≤ b)
+    let mk (ts : Int) (u loc : Nat) (age : Int) : Ev Nat :=
+      .msg { kind := .search, ts := ts, udnHdr := some u, udn := some u, ty := some 1, ntsOk := true,
+             loc := some loc, locOk := true, maxAge := age, hdrs := [(20, (20, 7))] }
+    let tail := [mk 0 1 50 5, mk 1 1 150 99, mk 10 1 60 90]
+    ((run ipv skip {} tail).map fun x => x.2.2.map (·.source)).getLast? = some (some .searchAlive) ∧
+    ((run ipv skip {} (mk 0 2 70 50 :: tail)).map fun x => x.2.2.map (·.source)).getLast? = some (some .searchChanged) ∧
+    ok ipv skip 0 .both (traceOf ipv skip 0 .both le {} tail) = true ∧
+    ok ipv skip 0 .both (traceOf ipv skip 0 .both le {} (mk 0 2 70 50 :: tail)) = true := by
+  decide
 
 /-- **c04_history** — for every history of well-formed events the judge `C04.ok` accepts the model's trace. -/
 theorem c04_history (le : σ → σ → Bool) (evs : List (Ev σ)) (hw : ∀ e ∈ evs, e.wf = true) :
